@@ -54,6 +54,7 @@ class FnSpec:
         self.source = None
         self.drops = []       # (start_regex, end_regex): statements removed (prologue the verifier cannot reach)
         self.signature = None  # replacement signature (free variables of the kept body bound as parameters)
+        self.covered_elsewhere = False  # its obligation is registered by the unit that owns the included file
         self.closure_of = None  # (outer fn path): extract `let <name> = |params| -> Ret { body };` from inside it as a fn
 
 
@@ -115,7 +116,7 @@ def parse_spec(path):
                 sub = expand(os.path.join(os.path.dirname(pth), m.group(1)), depth + 1)
                 if m.group(2):
                     # `silent`: contracts are included and re-verified, but their obligations are registered by the owning unit only
-                    sub = [x for x in sub if not x.strip().startswith("@obligation")]
+                    sub = [("@covered_elsewhere" if x.strip().startswith("@obligation") else x) for x in sub]
                 out.extend(sub)
             else:
                 out.append(ln)
@@ -151,6 +152,10 @@ def parse_spec(path):
                     cur_fn.obligation = _parse_ob(rest)
                 elif u.lemmas:
                     u.lemmas[-1][1] = _parse_ob(rest)
+            elif kw == "@covered_elsewhere":
+                flush()
+                if cur_fn is not None:
+                    cur_fn.covered_elsewhere = True
             elif kw == "@external_body":
                 flush(); cur_fn.external_body = True
             elif kw == "@drop":
@@ -210,6 +215,13 @@ def load_obligations():
         for f in u.fns:
             if f.obligation:
                 out.append(mk(f.obligation, f.name))
+            elif f.header.strip() and "ensures" in f.header and not f.external_body and not f.covered_elsewhere:
+                # an extracted real function whose contract the unit's obligations rely on: it is an obligation too
+                # (otherwise a change that breaks only this helper's contract would leave its callers "proved")
+                short = f.name.split("::")[-1]
+                out.append(mk({"id": "A-%s-%s" % (u.head["unit"], f.name.replace("::", ".").replace("_", "-")),
+                               "claim": "contract of the extracted helper %s (relied upon by the other obligations of unit %s)" % (f.name, u.head["unit"])},
+                              f.name))
         for name, kv in u.lemmas:
             if kv:
                 out.append(mk(kv, name))
